@@ -841,6 +841,12 @@ def run(chk):
                                            "case": dict(small, argv=res.get("argv"))})
             stats["shrunk_to_entries"] = len(small["spec"])
 
+    # the whole-program model (Whole/*.v), on which this property's whole-program theorems rest, against the real command line
+    import whole as _whole
+    import random as _random
+    _ws = {}
+    _whole.whole_stream(chk, _random.Random(chk.seed * 7919 + 7), 60 if chk.tier == "quick" else 2500, _ws)
+    chk.notes["whole_program_tie"] = _ws
     chk.coverage["rule"] = (
         "random sandboxes (1-3 input directories below a working directory, trees to relative depth 4, hidden files and "
         "directories at every level, symlinks to directories outside and inside the inputs (never cyclic), links to files, "
